@@ -29,12 +29,11 @@ def execute(case):
             lf.set_tenalg(be)
             for how in ("tuple", "object"):
                 runs["%s_%s" % (be, how)] = lf.run_views(op, inp, how)
+            if c["bad"] != "none":          # invalid family: the conversion functions on the raw tuple, too
+                runs["%s_convert" % be] = lf.run_convert(op, inp)
     finally:
         lf.set_tenalg("core")
-    ev = {"id": case["id"], "cfg": c, "in": lf.inputs_json(c, inp), "runs": runs}
-    if c["bad"] != "none":
-        ev["silent"] = lf.silent_reconstruction(op, inp)
-    return ev
+    return {"id": case["id"], "cfg": c, "in": lf.inputs_json(c, inp), "runs": runs}
 
 
 def run(chk, opts):
@@ -72,10 +71,11 @@ def run(chk, opts):
         chk.sample(e)
     silent = {}
     for e in events:
-        if e.get("silent"):
-            key = "%s/%s" % (e["cfg"]["op"], e["cfg"]["bad"])
-            silent[key] = silent.get(key, 0) + 1
-    chk.notes["invalid_inputs_silently_reconstructed_by_to_tensor_on_raw_tuple (information, no obligation)"] = silent
+        for rk, rr in e.get("runs", {}).items():
+            for fn in rr.get("accepted", []):
+                key = "%s/%s%+d: %s" % (e["cfg"]["op"], e["cfg"]["bad"], e["cfg"]["dl"], fn)
+                silent[key] = silent.get(key, 0) + 1
+    chk.notes["conversion_functions_that_returned_a_value_on_an_invalid_raw_tuple (run x event counts)"] = silent
     for rid, clause, rest in chk.validate("FactorizedTrace", events):
         ev = by_id.get(rid)
         chk.violation(rid, clause, event=ev, extra={"run": rest[0] if rest else "-"})
@@ -84,7 +84,9 @@ def run(chk, opts):
     chk.assumptions += ["NumPy backend only", "integer entries in -2..2 so that float64 arithmetic is exact; multilinearity in each factor "
                         "extends equality on generic integer fills to all values only heuristically (one seeded fill per configuration; "
                         "two in the thorough tier)",
-                        "rejection of invalid factor sets is demanded of the validators and wrapper constructors only"]
+                        "rejection of the three named invalid classes is demanded of the validator, the wrapper constructor and every "
+                        "conversion function called on the raw tuple; perturbations go in both directions (one too large / one too small, "
+                        "down to rank 0; Gram deviation of either sign)"]
 
 
 def replay(chk, rec, opts):
